@@ -229,6 +229,13 @@ func (c *checkSchema) ensureShortcutKeysAreValid(node *schema.ObjectNode) error 
 }
 
 func actualRootType(s, root *schema.Schema) json.Type {
+	return actualRootTypeOf(s, root, map[string]struct{}{})
+}
+
+// actualRootTypeOf resolves type shortcuts down to a JSON type. inProgress holds
+// the names of the types being resolved: a type which refers to itself (@a = @a | @b)
+// has no single JSON type.
+func actualRootTypeOf(s, root *schema.Schema, inProgress map[string]struct{}) json.Type {
 	t := s.RootNode().Type()
 	if t != json.TypeMixed {
 		return t
@@ -239,11 +246,16 @@ func actualRootType(s, root *schema.Schema) json.Type {
 		types := make(map[json.Type]struct{}, 2)
 		var tt json.Type
 		for _, tn := range n.GetTypes() {
+			if _, ok := inProgress[tn]; ok {
+				return json.TypeMixed
+			}
 			ss, err := root.Type(tn)
 			if err != nil {
 				return json.TypeMixed
 			}
-			tt = actualRootType(ss, root)
+			inProgress[tn] = struct{}{}
+			tt = actualRootTypeOf(ss, root, inProgress)
+			delete(inProgress, tn)
 			types[tt] = struct{}{}
 		}
 		if len(types) == 1 { // all USER TYPES (example: @aaa | @bbb) have the same type (example: string)
